@@ -107,7 +107,7 @@ func genCase(r gen.R, sub uint32) caseT {
 		c.Script = append(c.Script, []string{"frame", "frame", "suspend-resume", "pointer", "appid"}[r.Intn(5)])
 	}
 	c.StopAt = r.Intn(n + 1)
-	c.Trigger = []string{"close", "close", "double-close", "close-other-goroutine", "sigterm", "sigint", "sigterm-burst", "sigterm-slow-app"}[r.Intn(8)]
+	c.Trigger = []string{"close", "close", "double-close", "close-other-goroutine", "sigterm", "sigint", "sigterm-burst", "sigterm-slow-app", "close-while-suspended"}[r.Intn(9)]
 	if c.Trigger == "sigterm-slow-app" {
 		c.QueueSz = []int{1, 2, 4}[r.Intn(3)]
 	}
@@ -279,6 +279,16 @@ func runCase(w *harness.W, c caseT) {
 			if d := diffTables(mid, after); len(d) > 0 {
 				w.Violation("second-close-changed-terminal", "a second Close changed the terminal: "+strings.Join(d, "; "), c, strings.Join(d, "; "), "harmless")
 			}
+		})
+	case "close-while-suspended":
+		finish(func() {
+			vx.Suspend()
+			var mid map[string]string
+			con.With(func() { mid = t.ModeTable() })
+			if d := diffTables(prior, mid); len(d) > 0 {
+				w.Violation("not-restored:suspend:"+strings.SplitN(d[0], ":", 2)[0], "after Suspend the terminal differs from its prior state: "+strings.Join(d, "; "), c, strings.Join(d, "; "), "prior state")
+			}
+			vx.Close()
 		})
 	case "close-other-goroutine":
 		finish(func() {
